@@ -731,6 +731,12 @@ fn resolve_names_item_decl(ctx: &mut StaticsContext, symbol_table: &SymbolTable,
             resolve_identifier(ctx, &symbol_table, &iface_impl.iface);
             resolve_names_typ(ctx, &symbol_table, &iface_impl.typ, true);
             for f in &iface_impl.methods {
+                // a call is checked against the interface's method, which knows no defaults
+                report_unsupported_default_values(
+                    ctx,
+                    &f.args,
+                    "a method that implements an interface",
+                );
                 resolve_names_func_helper(ctx, &symbol_table, &f.args, &f.body, &f.ret_type);
             }
 
@@ -1054,6 +1060,7 @@ fn resolve_names_expr(ctx: &mut StaticsContext, symbol_table: &SymbolTable, expr
             }
         }
         ExprKind::AnonymousFunction(args, out_ty, body) => {
+            report_unsupported_default_values(ctx, args, "an anonymous function");
             let symbol_table = symbol_table.new_scope();
             resolve_names_func_helper(ctx, &symbol_table, args, body, out_ty);
         }
@@ -1367,6 +1374,22 @@ fn resolve_names_func_helper(
 
     if let Some(ty_annot) = ret_type {
         resolve_names_typ(ctx, symbol_table, ty_annot, true);
+    }
+}
+
+// Only calls of a function found by name can fill in omitted arguments.
+fn report_unsupported_default_values(
+    ctx: &mut StaticsContext,
+    args: &[ArgMaybeAnnotated],
+    what: &str,
+) {
+    for arg in args {
+        if let Some(default_val) = &arg.default_val {
+            ctx.errors.push(Error::GenericWithNode {
+                msg: format!("A parameter of {what} can't have a default value"),
+                node: default_val.node(),
+            });
+        }
     }
 }
 
